@@ -305,7 +305,16 @@ def main():
         corpus = []
         for f in sorted(glob.glob(os.path.join(VERIF, "corpus", pid, "*.json"))):
             corpus.append(json.load(open(f)))
-        gen = mod.gen_cases(rng, tier)
+        try:
+            gen = mod.gen_cases(rng, tier)
+        except Exception as e:
+            # a generator that refuses to run (typically the fail-closed entry-point audit: the source has a function,
+            # method or parameter the module has not classified) means the correspondence is no longer established
+            gen = []
+            violations.append(("generator", {"kind": "no-failing-input-found",
+                                             "clause": "case generation failed closed: %s: %s" % (type(e).__name__, e),
+                                             "theorem_or_shard": "case generator / entry-point audit of %s" % pid,
+                                             "tb": traceback.format_exc()[-2000:]}))
         cases = corpus + gen
         corpus_n = len(corpus)
     t1 = time.time()
@@ -385,7 +394,10 @@ def main():
     if concrete is None and (broken or violations) and not replay_path and hasattr(mod, "gen_cases"):
         # search for a failing input with the independent predicate on a fresh, larger batch
         srng = random.Random("%s/search/%d" % (pid, seed))
-        extra = mod.search_cases(srng) if hasattr(mod, "search_cases") else mod.gen_cases(srng, "thorough")
+        try:
+            extra = mod.search_cases(srng) if hasattr(mod, "search_cases") else mod.gen_cases(srng, "thorough")
+        except Exception:
+            extra = []                      # the generator itself failed closed (already recorded above)
         extra = extra[: getattr(mod, "SEARCH_MAX", 4000)]
         eouts = run_all(mod, extra)
         for c, o in zip(extra, eouts):
